@@ -36,6 +36,7 @@ type Result struct {
 	Raw     string
 	Lines   []Info
 	BadLine string // first line that does not match the documented grammar
+	LateHit bool   // RunPonder only: the ponderhit had to be sent by the watchdog (timing then depends on the clock)
 }
 
 var abortLn = regexp.MustCompile(`^info depth (\d+) nodes (\d+)$`)
@@ -191,8 +192,24 @@ func RunPonder(s *search.Search, b *board.Board, hitAfter int, opts ...search.Op
 	cnt := search.Counters{}
 	all := append([]search.Option{}, opts...)
 	all = append(all, search.WithCounters(&cnt), search.WithOutput(w), search.WithPonderHit(w.ch))
+	// safety net: an engine that writes fewer lines than expected while pondering would never get its ponderhit
+	done := make(chan struct{})
+	late := make(chan bool, 1)
+	go func() {
+		select {
+		case <-done:
+			late <- false
+		case <-time.After(10 * time.Second):
+			select {
+			case w.ch <- time.Now():
+			default:
+			}
+			late <- true
+		}
+	}()
 	sc, m, p := s.Go(b, all...)
-	r := Result{Score: sc, Move: m, Ponder: p, Nodes: cnt.Nodes, Raw: w.buf.String()}
+	close(done)
+	r := Result{Score: sc, Move: m, Ponder: p, Nodes: cnt.Nodes, Raw: w.buf.String(), LateHit: <-late}
 	r.Lines, r.BadLine = Parse(r.Raw)
 	return r
 }
